@@ -190,6 +190,14 @@ class BaseProtoServer(object):
     if act.get('close') and act.get('close_before_reply'):
       conn.close_by_server(act['close'], act.get('close_delay', 0.0))
       return
+    if act.get('cut') and not act.get('drop'):
+      # the server dies in the middle of writing its reply: a proper prefix of the frame, then FIN
+      d = act.get('delay', 0.0)
+      k = max(1, min(len(data) - 1, act['cut']))
+      conn.write(data[:k], d, None, label + '/cut', close_after='fin')
+      req['dropped'] = True
+      req['cut'] = k
+      return
     if not act.get('drop'):
       d = act.get('delay', 0.0)
       if act.get('close') and act.get('close_delay') == d:
